@@ -145,7 +145,10 @@ type hist struct {
 	cl    *dnsmsg.Cloner
 	ctors []ctorPair
 	live  []*entry
-	log   []opRec
+	// ghosts are messages that are no longer monitored (they stopped packing)
+	// but whose memory still matters for classifying damage to live messages.
+	ghosts []*entry
+	log    []opRec
 	next  int
 	step  int
 	// counters (flushed into buckets at the end)
@@ -202,7 +205,8 @@ type window struct {
 
 func (h *hist) hintWindows() []window {
 	var ws []window
-	for _, e := range h.live {
+	all := append(append([]*entry(nil), h.live...), h.ghosts...)
+	for _, e := range all {
 		for _, rr := range e.m.Answer {
 			hs, ok := rr.(*dns.HTTPS)
 			if !ok {
@@ -276,6 +280,9 @@ func (h *hist) hintKey(key, class string, extra map[string]any, ids ...int) stri
 
 // diffClass names the part of a message that changed between two printed forms.
 func diffClass(before, after string) (class string, lineBefore, lineAfter string) {
+	// nil-vs-empty client-subnet addresses print differently but are the same
+	// on the wire
+	before, after = strings.ReplaceAll(before, "[<nil>]", "<nil>"), strings.ReplaceAll(after, "[<nil>]", "<nil>")
 	a, b := strings.Split(before, "\n"), strings.Split(after, "\n")
 	for i := 0; i < len(a) || i < len(b); i++ {
 		var x, y string
@@ -313,7 +320,11 @@ func diffClass(before, after string) (class string, lineBefore, lineAfter string
 				for k := 0; k < len(fx) && k < len(fy); k++ {
 					if fx[k] != fy[k] {
 						if j := strings.IndexByte(fx[k], '='); j > 0 {
-							return t + "/" + fx[k][:j], x, y
+							p := fx[k][:j]
+							if strings.HasPrefix(p, "key") && len(p) > 3 && p[3] >= '0' && p[3] <= '9' {
+								p = "keyNNNNN"
+							}
+							return t + "/" + p, x, y
 						}
 						break
 					}
@@ -326,10 +337,27 @@ func diffClass(before, after string) (class string, lineBefore, lineAfter string
 	return "wire-only", "", ""
 }
 
-// checkAll re-checks every live message against its snapshot.
-func (h *hist) checkAll(after string) {
+// packOnly packs m (the wire form is the primary snapshot).
+func packOnly(m *dns.Msg) (b []byte, err error) {
+	defer func() {
+		if p := recover(); p != nil {
+			err = fmt.Errorf("panic while packing: %v", p)
+		}
+	}()
+	return m.Pack()
+}
+
+// checkAll re-checks every live message against its snapshot: the packed bytes
+// after every step, the printed form in addition every fifth step and at the
+// end of the history (it only adds details that are not on the wire).
+func (h *hist) checkAll(after string, full bool) {
 	for _, e := range h.live {
 		h.cnt["snapshot_comparisons"]++
+		if !full {
+			if b, err := packOnly(e.m); err == nil && bytes.Equal(b, e.s.packed) {
+				continue
+			}
+		}
 		s, err := takeSnap(e.m)
 		if err == nil && s.equal(e.s) {
 			continue
@@ -352,6 +380,7 @@ func (h *hist) checkAll(after string) {
 			e.s = s
 		} else {
 			h.remove(e)
+			h.ghosts = append(h.ghosts, e)
 			return
 		}
 	}
@@ -583,11 +612,12 @@ func (h *hist) opClone() {
 	e := h.add(c, "clone")
 	if e == nil {
 		// keep it for the memory classification only
-		tmp := &entry{id: -1, m: c}
-		h.live = append(h.live, tmp)
+		h.next++
+		tmp := &entry{id: h.next, m: c, kind: "clone"}
+		h.ghosts = append(h.ghosts, tmp)
+		h.rec("clone(unpackable)", tmp.id, src.id, src.kind, src.desc)
 		extra := map[string]any{"src": src.id, "src_printed": src.s.str}
-		key := h.hintKey("cloner:clone-does-not-pack", "does-not-pack", extra, -1)
-		h.remove(tmp)
+		key := h.hintKey("cloner:clone-does-not-pack", "does-not-pack", extra, tmp.id)
 		h.r.Violation(key, "the clone of a packable message does not pack", h.witness(extra))
 		return
 	}
@@ -909,7 +939,7 @@ func (h *hist) run(steps, maxLive int) {
 			op = "modify"
 			h.opScribbleLive()
 		}
-		h.checkAll(op)
+		h.checkAll(op, h.step%5 == 0 || h.step == steps)
 		if h.yield && h.g.r.IntN(4) == 0 {
 			runtime.Gosched()
 		}
@@ -1032,6 +1062,71 @@ func probePooledOPTFlags(r *vkit.Run) (defect bool) {
 	return false
 }
 
+// probeOPTCopyFallback: clone a message whose OPT record carries a client
+// subnet plus an option the cloner does not know (padding); (a) write the
+// original's address bytes and read the clone; (b) release the original and
+// clone an unrelated message with another client subnet, then read the first
+// clone.
+func probeOPTCopyFallback(r *vkit.Run) (defect bool) {
+	mk := func(name string, subnet net.IP, withPadding bool) *dns.Msg {
+		m := &dns.Msg{}
+		m.SetQuestion(name, dns.TypeA)
+		m.Response = true
+		o := &dns.OPT{Hdr: dns.RR_Header{Name: ".", Rrtype: dns.TypeOPT}}
+		o.SetUDPSize(1232)
+		o.Option = []dns.EDNS0{&dns.EDNS0_SUBNET{Code: dns.EDNS0SUBNET, Family: 1, SourceNetmask: 24, SourceScope: 24, Address: subnet}}
+		if withPadding {
+			o.Option = append(o.Option, &dns.EDNS0_PADDING{Padding: make([]byte, 8)})
+		}
+		m.Extra = []dns.RR{o}
+		return m
+	}
+	for a := 0; a < 48; a++ {
+		cl := dnsmsg.NewCloner(dnsmsg.EmptyClonerStat{})
+		m, err := wire(mk("first-client.test.", net.IP{198, 51, 100, 0}, true))
+		if err != nil {
+			r.Inconclusive("probe message does not survive the wire: " + err.Error())
+			return false
+		}
+		c := cl.Clone(m)
+		s0, _ := takeSnap(c)
+		// (a)
+		addr := m.Extra[0].(*dns.OPT).Option[0].(*dns.EDNS0_SUBNET).Address
+		addr[len(addr)-2] ^= 0xff
+		s1, e1 := takeSnap(c)
+		addr[len(addr)-2] ^= 0xff
+		// (b)
+		cl.Dispose(m)
+		second, _ := wire(mk("second-client.test.", net.IP{203, 0, 113, 0}, false))
+		other := cl.Clone(second)
+		s2, e2 := takeSnap(c)
+		_ = other
+		if e1 != nil {
+			s1.str = "<does not pack: " + e1.Error() + ">"
+		}
+		if e2 != nil {
+			s2.str = "<does not pack: " + e2.Error() + ">"
+		}
+		r.Bucket("probe_opt_fallback_attempts", 1)
+		if !s0.equal(s1) || !s0.equal(s2) {
+			if !s0.equal(s2) || a == 47 {
+				r.Violation("cloner:opt-copy-fallback-shares-subnet-address",
+					"the clone of a message whose OPT record has an option unknown to the cloner (here: padding) shares the client-subnet address bytes with its original; after the original is released, cloning another client's message overwrites the live clone's client subnet",
+					map[string]any{"attempt": a, "ops": []string{
+						"m := Unpack(Pack(response first-client.test. OPT{SUBNET 198.51.100.0/24, PADDING}))",
+						"c := cloner.Clone(m)",
+						"(a) m.OPT.SUBNET.Address[third octet] ^= 0xff; read c; undo",
+						"(b) cloner.Dispose(m); cloner.Clone(Unpack(Pack(response second-client.test. OPT{SUBNET 203.0.113.0/24}))); read c",
+					}, "c_initially": s0.str, "c_after_a_writing_original": s1.str, "c_after_b_release_and_unrelated_clone": s2.str,
+						"changed_by_a": !s0.equal(s1), "changed_by_b": !s0.equal(s2)})
+				return true
+			}
+			defect = true
+		}
+	}
+	return defect
+}
+
 // ---- drivers ----
 
 func histClass(sig []string) string {
@@ -1044,24 +1139,42 @@ func runHeapMonitor(r *vkit.Run) (httpsDefect bool) {
 	optDefect := probePooledOPTFlags(r)
 	r.Extra("probe_https_hint_pool_aliasing_present", httpsDefect)
 	r.Extra("probe_pooled_opt_stale_flags_present", optDefect)
+	r.Extra("probe_opt_copy_fallback_shared_subnet_present", probeOPTCopyFallback(r))
 
-	// (a) single-threaded histories: pure history property
+	// (a) single-threaded histories: pure history property.  Every history has
+	// its own Cloner and runs on one goroutine; independent histories are
+	// spread over a few workers only to save wall time.
 	nSeq := r.N(300, 3000)
 	steps := 200
-	for i := 0; i < nSeq; i++ {
-		cl := dnsmsg.NewCloner(dnsmsg.EmptyClonerStat{})
-		ref := dnsmsg.NewCloner(dnsmsg.EmptyClonerStat{})
-		h := newHist(r, hs, fmt.Sprintf("seq/%d", i), "hist-seq", i, cl, ref, newCtorPairs(cl, ref), 8)
-		h.run(steps, 14)
-		r.Eval("seq:"+histClass(h.sig), h.recycledLive)
-		if i < 2 {
-			lg := h.log
-			if len(lg) > 25 {
-				lg = lg[:25]
-			}
-			r.Sample(map[string]any{"monitor": "clone/dispose history", "history": h.tag, "first_ops": lg})
+	{
+		var wg sync.WaitGroup
+		var next atomic.Int64
+		for w := 0; w < 6; w++ {
+			wg.Add(1)
+			go func() {
+				defer wg.Done()
+				for {
+					i := int(next.Add(1)) - 1
+					if i >= nSeq {
+						return
+					}
+					cl := dnsmsg.NewCloner(dnsmsg.EmptyClonerStat{})
+					ref := dnsmsg.NewCloner(dnsmsg.EmptyClonerStat{})
+					h := newHist(r, hs, fmt.Sprintf("seq/%d", i), "hist-seq", i, cl, ref, newCtorPairs(cl, ref), 8)
+					h.run(steps, 12)
+					r.Eval("seq:"+histClass(h.sig), h.recycledLive)
+					if i < 2 {
+						lg := h.log
+						if len(lg) > 25 {
+							lg = lg[:25]
+						}
+						r.Sample(map[string]any{"monitor": "clone/dispose history", "history": h.tag, "first_ops": lg})
+					}
+					r.Bucket("heap_histories_seq", 1)
+				}
+			}()
 		}
-		r.Bucket("heap_histories_seq", 1)
+		wg.Wait()
 	}
 
 	// (b) 8 goroutines on one shared cloner.  While the HTTPS hint aliasing
